@@ -6,6 +6,7 @@ import (
 	"os"
 
 	"verif/internal/c01"
+	"verif/internal/c02"
 	"verif/internal/c04"
 	"verif/internal/c06"
 	"verif/internal/c07"
@@ -24,6 +25,7 @@ import (
 
 var checks = map[string]func(tier, replay string){
 	"C01": c01.Main,
+	"C02": c02.Main,
 	"C04": c04.Main,
 	"C06": c06.Main,
 	"C07": c07.Main,
